@@ -426,6 +426,55 @@ async fn run_case(addr: SocketAddr, certs: &Certs, t: &[&str]) -> anyhow::Result
             let probe = if t[2] == "RP" || t[2] == "RS" { probe_pubsub(addr, certs, &ns, &tp).await } else { probe_reqrep(addr, certs, &ns, &tp).await };
             Ok(format!("probe={probe}"))
         }
+        "race" => {
+            // <subs> subscribers on connections of their own register at the same instant on a topic nobody has used yet
+            // (<topics> times, a new topic each time): they are all on ONE topic — what is published there reaches each
+            let (subs, topics): (usize, usize) = (t[2].parse()?, t[3].parse()?);
+            let mut conns = vec![];
+            for _ in 0..subs { conns.push(raw(addr, certs).await?); }
+            let pconn = raw(addr, certs).await?;
+            let mut verdict = "ok".to_string();
+            'rounds: for round in 0..topics {
+                let (ns, tp) = fresh();
+                let barrier = std::sync::Arc::new(tokio::sync::Barrier::new(subs));
+                let mut hs = vec![];
+                for c in &conns {
+                    let (c, ns, tp, b) = (c.clone(), ns.clone(), tp.clone(), barrier.clone());
+                    hs.push(tokio::spawn(async move {
+                        let mut s = raw_stream(&c).await?;
+                        b.wait().await;
+                        s.send(reg_frame("RS", &ns, &tp)).await?;
+                        let a = answer(&mut s).await;
+                        Ok::<_, anyhow::Error>((s, a))
+                    }));
+                }
+                let mut streams = vec![];
+                for h in hs {
+                    match tokio::time::timeout(Duration::from_secs(5), h).await {
+                        Ok(Ok(Ok((s, a)))) if a == "Ok" => streams.push(s),
+                        Ok(Ok(Ok((_, a)))) => { verdict = format!("FAILED:round{round}:registration_answered_{a}"); break 'rounds; }
+                        Ok(Ok(Err(e))) => { verdict = format!("FAILED:round{round}:registration_{}", format!("{e}").chars().take(40).collect::<String>().replace(' ', "_")); break 'rounds; }
+                        _ => { verdict = format!("FAILED:round{round}:registration_hang"); break 'rounds; }
+                    }
+                }
+                tokio::time::sleep(Duration::from_millis(60)).await;
+                let mut publ = raw_stream(&pconn).await?;
+                publ.send(reg_frame("RP", &ns, &tp)).await?;
+                let a = answer(&mut publ).await;
+                if a != "Ok" { verdict = format!("FAILED:round{round}:publisher_{a}"); break; }
+                publ.send(Frame::Message(selium_protocol::MessagePayload { headers: None, message: bytes::Bytes::from_static(b"to-all") })).await?;
+                let mut missing = 0;
+                for s in streams.iter_mut() {
+                    match tokio::time::timeout(Duration::from_millis(2500), s.next()).await {
+                        Ok(Some(Ok(Frame::Message(m)))) if &m.message[..] == b"to-all" => {}
+                        _ => missing += 1,
+                    }
+                }
+                if missing > 0 { verdict = format!("FAILED:round{round}:{missing}_of_{subs}_subscribers_got_nothing"); break; }
+                let _ = publ.finish().await;
+            }
+            Ok(format!("{verdict} probe=ok"))
+        }
         "stall" | "stall1" => {
             let n: usize = t[2].parse()?;
             let (ns, tp) = fresh();
@@ -551,6 +600,7 @@ pub fn run_named(cfg: &Cfg, name: &str) {
         for first in ["RP", "RR"] { for second in ["pub", "sub", "req"] { cases.push(format!("reg lib {first} {second}")); } }
         for role in ["RR", "RQ", "RP", "RS"] { cases.push(format!("reg abandon {role} 3")); }
         cases.push("reg mute".into());
+        cases.push("reg race 8 30".into());
         cases.push("reg pipeline RP".into());
         cases.push("reg pipeline RQ".into());
         cases.push("reg stall 130".into());
@@ -612,6 +662,7 @@ pub fn run_named(cfg: &Cfg, name: &str) {
                         if t[2] == "RP" && l <= max && !line.contains(&format!("got={},5 ", l - 9)) { m = Err(format!("C01/C03/C11: a publisher's frame within the limit (payload length {l}) did not reach the subscriber, or took the following message with it: {line}")); }
                         if t[2] == "RQ" && !line.contains("after=len5") { m = Err(format!("C02/C08/C11: after a request of payload length {l} (refused or not by the replier's sink once tagged) the next request was not answered: {line}")); }
                     }
+                    if t[1] == "race" && !line.starts_with("ok ") { m = Err(format!("C01/C11: subscribers that registered at the same instant on a fresh topic do not all receive what is published on it (accepted, then left on a topic of their own): {line}")); }
                     if t[1] == "pipeline" {
                         let want = if t[2] == "RP" { "got=first+second+third+fourth" } else { "got=r:first+r:second+r:third" };
                         if !line.contains(want) { m = Err(format!("{}: frames sent in the same write as the registration (before its acknowledgement) were lost or reordered: {line}", if t[2] == "RP" { "C01/C11" } else { "C02/C11" })); }
